@@ -31,20 +31,25 @@ Proof.
   apply in_map. apply all_bools_complete.
 Qed.
 
+Definition cfg_code (c : cfg) : nat :=
+  let k := match arg c with AFile => 0 | ADir => 1 | ALinkFile => 2 | ALinkDir => 3 | AStdin => 4 | AUrl => 5 | AGitRepo => 6 end in
+  let t := match ty c with TAuto => 0 | TContent => 1 | TDirectory => 2 | TOrigin => 3 | TSnapshot => 4 end in
+  let d := if deref c then 0 else 1 in
+  let f := if fname c then 0 else 1 in
+  let r := if recur c then 0 else 1 in
+  let v := match ver c with VNone => 0 | VMatch => 1 | VNonMatch => 2 end in
+  let x := if excl c then 0 else 1 in
+  (((((k * 5 + t) * 2 + d) * 2 + f) * 2 + r) * 3 + v) * 2 + x.
+
 Theorem all_cfgs_count : length all_cfgs = 1680 /\ NoDup all_cfgs.
 Proof.
   split; [vm_compute; reflexivity|].
   (* NoDup through an injection into nat: the index of a configuration *)
-  set (code := fun c : cfg =>
-    ((((((match arg c with AFile => 0 | ADir => 1 | ALinkFile => 2 | ALinkDir => 3 | AStdin => 4 | AUrl => 5 | AGitRepo => 6 end) * 5
-    + (match ty c with TAuto => 0 | TContent => 1 | TDirectory => 2 | TOrigin => 3 | TSnapshot => 4 end)) * 2
-    + (if deref c then 0 else 1)) * 2 + (if fname c then 0 else 1)) * 2 + (if recur c then 0 else 1)) * 3
-    + (match ver c with VNone => 0 | VMatch => 1 | VNonMatch => 2 end)) * 2 + (if excl c then 0 else 1))%nat).
-  assert (Hseq : map code all_cfgs = seq 0 1680) by (vm_compute; reflexivity).
-  assert (Hnd : NoDup (map code all_cfgs)) by (rewrite Hseq; apply seq_NoDup).
+  assert (Hseq : map cfg_code all_cfgs = seq 0 1680) by (vm_compute; reflexivity).
+  assert (Hnd : NoDup (map cfg_code all_cfgs)) by (rewrite Hseq; apply seq_NoDup).
   revert Hnd. generalize all_cfgs. intros l. induction l as [|a l IH]; intros Hnd.
   - constructor.
-  - cbn in Hnd. inversion Hnd as [|? ? Hnotin Hnd']; subst. constructor.
+  - cbn [map] in Hnd. inversion Hnd as [|? ? Hnotin Hnd']; subst. constructor.
     + intros Hin. apply Hnotin. apply in_map. exact Hin.
     + apply IH. exact Hnd'.
 Qed.
